@@ -16,6 +16,7 @@ import (
 	"verifsim/harness"
 	"verifsim/sim"
 	"verifsim/simnet"
+	"verifsim/verifrt"
 )
 
 func init() {
@@ -388,10 +389,30 @@ func runRelay(c *harness.Ctx) {
 
 // ---- termination monitor ---------------------------------------------------------
 
+// monitorYields switches the statement-level yields of the woven termmon.go on
+// for this run (all of them, one in three, or none).
+func monitorYields(c *harness.Ctx) {
+	k := []int{0, 1, 1, 3}[c.T.Draw("termmon.yield-density", 4)]
+	c.Info["termmon_yield_one_in"] = k
+	if k == 0 {
+		return
+	}
+	salt := c.T.Draw("termmon.yield-salt", 1<<16)
+	c.S.YieldOn = func(site int) bool {
+		x := uint32(site)*2654435761 + uint32(salt)*40503
+		x ^= x >> 15
+		return int(x%uint32(k)) == 0
+	}
+	verifrt.Activate(c.S)
+	c.AtEnd(verifrt.Deactivate)
+	c.Feature("termmon-yields-active")
+}
+
 func runTermMon(c *harness.Ctx) {
 	t := c.T
 	c.Info["part"] = "termmon"
 	c.S.ArmSelect()
+	monitorYields(c)
 	// the monitor as obfs4proxy builds it (channel capacities are part of its
 	// behaviour); signals are then offered on its channel by the simulation.
 	// newTermMonitor also registers for real SIGINT/SIGTERM (none arrives) and,
